@@ -123,6 +123,23 @@ Fixpoint parse_wits {I} (ins : list I) (acc : list (list bytes)) (b : bytes)
   | _ :: ins' => '(w, b') <- witness_deser b ;; parse_wits ins' (w :: acc) b'
   end.
 
+(* the BIP141 marker/flag test of tx_deser, after the first count n0 has been parsed, p0 = what follows:
+     if number_of_inputs == 0 and tx_prime:
+         assert tx_prime[0] == 1, "flag not 1"
+         is_segwit = True
+         number_of_inputs, tx_prime = parse_compact_size_uint(tx_prime[1:])
+   returns (is_segwit, number_of_inputs, tx_prime) *)
+Definition detect_segwit (n0 : Z) (p0 : bytes) : result (bool * Z * bytes) :=
+  match p0 with
+  | flag :: _ =>
+    if n0 =? 0 then
+      _ <- assert_ (b2z flag =? 1) AssertionE ;;
+      '(n, p) <- parse_compact_size_uint (skipn 1 p0) ;;
+      Ok (true, n, p)
+    else Ok (false, n0, p0)
+  | [] => Ok (false, n0, p0)
+  end.
+
 Section Hash.
   Variable sha256 : bytes -> bytes.
   Definition hash256 (m : bytes) : bytes := sha256 (sha256 m).      (* bits.crypto.hash256 *)
@@ -132,16 +149,7 @@ Section Hash.
   Definition tx_deser (tx_ : bytes) : result (tx_parsed * bytes) :=
     let version := of_le (firstn 4 tx_) in
     '(n0, p0) <- parse_compact_size_uint (skipn 4 tx_) ;;
-    '(is_segwit, n_in, p1) <-
-      match p0 with
-      | flag :: _ =>
-        if n0 =? 0 then                                   (* number_of_inputs == 0 and tx_prime *)
-          _ <- assert_ (b2z flag =? 1) AssertionE ;;      (* assert tx_prime[0] == 1 *)
-          '(n, p) <- parse_compact_size_uint (skipn 1 p0) ;;
-          Ok (true, n, p)
-        else Ok (false, n0, p0)
-      | [] => Ok (false, n0, p0)
-      end ;;
+    '(is_segwit, n_in, p1) <- detect_segwit n0 p0 ;;
     '(txins, p2) <- parse_n txin_deser (S (length p1)) n_in [] p1 ;;
     '(n_out, p3) <- parse_compact_size_uint p2 ;;
     '(txouts, p4) <- parse_n txout_deser (S (length p3)) n_out [] p3 ;;
